@@ -36,7 +36,7 @@ func DefaultPalette() *Palette {
 	return &Palette{
 		Infos:   []*Info{{Title: "My API"}, {Title: "T", Version: "1.0", Desc: "Hello\n  world"}, {Desc: "only text"}},
 		Servers: []*Server{{Name: "@prod", Ann: "Production", BaseURL: "https://x.y/"}, {Name: "@test", BaseURL: "http://t"}},
-		Tags:    []*Tag{{Name: "@cats", Ann: "Cats", Desc: "About cats"}, {Name: "@dogs"}},
+		Tags:    []*Tag{{Name: "@cats", Ann: "Cats *", Desc: "About cats"}, {Name: "@dogs"}},
 		Types: []*Type{
 			{Name: "@T1", Ann: "A  type", Body: Body{Kind: "schema", S: sObjRich}},
 			{Name: "@T2", Body: Body{Kind: "regex", Re: "^a+$"}},
@@ -46,7 +46,7 @@ func DefaultPalette() *Palette {
 			{Name: "@T6", Body: Body{Kind: "schema", S: Int("12").Min("1")}},
 			{Name: "@T7", Ann: "derived", Body: Body{Kind: "schema", S: sAllOf}},
 		},
-		Enums:   []*Enum{{Name: "@E1", Ann: "letters", Vals: []EnumVal{{V: Str("a"), Note: "first"}, {V: Str("b")}}}, {Name: "@E2", Vals: []EnumVal{{V: Int("1")}}}},
+		Enums:   []*Enum{{Name: "@E1", Ann: "* letters", Vals: []EnumVal{{V: Str("a"), Note: "first"}, {V: Str("b")}}}, {Name: "@E2", Vals: []EnumVal{{V: Int("1")}}}},
 		Methods: []string{"GET", "POST"},
 		Paths:   []string{"/a", "/a/{id}", "/a/{id}/b", "/c/{x}"},
 		Resps: []Resp{
